@@ -232,6 +232,10 @@ func coldStart(o *Outcome, sc *Scenario) {
 			tg := &tgtAB{}
 			err = bcl.Unmarshal(s, tg, bcl.OptOutput(&out), bcl.OptLogger(&log))
 			parts = append(parts, fmt.Sprintf("%#v", tg), errText(err))
+			// a type with several bcl tags, bound for the first time in this process by all callers at once
+			tt := &tgtTags{}
+			err = bcl.Unmarshal([]byte("def tgt_tags \"t\" { pp = 1; qq = 2; rr = \"r\"; ss = 4; uu = true }\nbind tgt_tags -> struct\n"), tt, bcl.OptOutput(&out), bcl.OptLogger(&log))
+			parts = append(parts, fmt.Sprintf("%#v", tt), errText(err))
 			if p, err := bcl.Parse(s, "c.bcl", bcl.OptOutput(&out), bcl.OptLogger(&log)); err == nil {
 				d, _, _ := DumpProg(p)
 				lr := loadVia(d, nil, "c", true)
